@@ -5,6 +5,7 @@ import (
 	"fmt"
 	"math"
 	"reflect"
+	goruntime "runtime"
 	"strconv"
 	"strings"
 	"unicode/utf16"
@@ -764,6 +765,26 @@ func conversionPanic(err error) *exception {
 	return &exception{
 		value: newError(nil, "RangeError", 0, "%s", strings.TrimPrefix(err.Error(), "RangeError: ")),
 	}
+}
+
+// toBridgedReflectValue is toReflectValue for writes into bridged Go slices,
+// arrays and maps: the panic toReflectValue raises for a conversion it has no
+// rule for (a number into a []*T, ...) comes back as an error, so that the
+// write fails with an exception the script can see instead of a Go panic.
+func (v Value) toBridgedReflectValue(typ reflect.Type) (result reflect.Value, err error) {
+	defer func() {
+		if caught := recover(); caught != nil {
+			switch caught := caught.(type) {
+			case goruntime.Error, *Error, Error:
+				panic(caught)
+			case error:
+				err = caught
+			default:
+				panic(caught)
+			}
+		}
+	}()
+	return v.toReflectValue(typ)
 }
 
 // Make a best effort to return a reflect.Value corresponding to reflect.Kind, but
